@@ -52,6 +52,23 @@ func drawElem(t *rt.Tape, p *big.Int, r *simrand.DRBG) *big.Int {
 		return new(big.Int).Mod(big.NewInt(1), p)
 	case 2:
 		return new(big.Int).Sub(p, big.NewInt(1))
+	case 3:
+		// "for all inputs": a representative outside [0, p) - negative, or p and more (still at most
+		// 256 bits: the vectors travel in 32-byte slots)
+		b := make([]byte, 40)
+		r.Read(b)
+		v := new(big.Int).Mod(new(big.Int).SetBytes(b), p)
+		switch t.Choose(rt.SGen, 3) {
+		case 0:
+			return v.Sub(v, p) // in [-p, 0)
+		case 1:
+			return v.Neg(v)
+		default:
+			if w := new(big.Int).Add(v, p); w.BitLen() <= 256 {
+				return w
+			}
+			return v
+		}
 	default:
 		b := make([]byte, 40)
 		r.Read(b)
